@@ -211,7 +211,8 @@ class Ops:
         for x, y in ((a, b), (b, a)):
             if isinstance(x, Obj):
                 f, owner = x.cls.lookup("__eq__")
-                if f is not None and not owner.builtin:
+                if f is not None and (not owner.builtin or (owner.name != "object" and "__eq__" in owner.ns)):
+                    # (model classes that define their own equality, e.g. pathlib.Path: equal paths are equal objects for ==, hashing, caches)
                     r = self.call(self.bind(f, x), [y], {})
                     if r is NOT_IMPLEMENTED:
                         continue
